@@ -23,4 +23,4 @@ def _nontrivial(c):
 
 
 mach.install(globals(), "C07", ("EvRead", "EvResume", "EvPause", "EvSched"), ("C07:",), PROFILES, n_quick=300,
-             n_thorough=5000, nontrivial=_nontrivial, level="proof")
+             n_thorough=25000, nontrivial=_nontrivial, level="proof")
